@@ -61,7 +61,15 @@ def _native_worker(args):
     qualname, n_cases, seed, size = args[:4]
     budget = args[4] if len(args) > 4 else None
     c = REGISTRY.get(qualname)
-    return native_check(c, n_cases, seed, size, time_budget_s=budget)
+    try:
+        return native_check(c, n_cases, seed, size, time_budget_s=budget)
+    finally:
+        # pool workers leave through os._exit: run the scratch clean-ups the generators registered
+        try:
+            import atexit
+            atexit._run_exitfuncs()
+        except Exception:      # noqa
+            pass
 
 
 SEARCH_BUDGET_S = float(os.environ.get('VERIF_SEARCH_BUDGET_S', '60'))
